@@ -5,7 +5,7 @@ This is the state-free corner of the technique: no faults except invalid ranges/
 """
 import zlib
 
-from ..core import Ctx, StopRun, ts, epoch, DAY, OPEN_S, CLOSE_S, iso
+from ..core import Ctx, StopRun, ts, epoch, DAY, OPEN_S, CLOSE_S, iso, raised_in_repo
 from .. import calendar_ref as cal
 
 NAME = "clock"
@@ -34,7 +34,7 @@ def generate(rng, focus, tier="quick"):
         d0 = cal.epoch_day(y, m, calendar.monthrange(y, m)[1]) - rng.randrange(0, 4)
     elif r < 0.40:
         # far dates: century years without a leap day, years before 1970 (negative epoch), the 22nd century
-        y = rng.choice([1900, 1900, 2100, 2100, 1899, 1950, 1962, 1969, 1970, 2000, 2200])
+        y = rng.choice([1900, 1900, 2100, 2100, 1899, 1950, 1962, 1969, 1970, 2000, 2200, 4, 50, 98, 99, 100, 999, 1000])
         d0 = cal.epoch_day(y, rng.choice([1, 2, 2, 2, 3, 12]), rng.randrange(1, 28))
     else:
         d0 = rng.randrange(cal.epoch_day(1999, 1, 1), cal.epoch_day(2024, 12, 1))
@@ -45,8 +45,8 @@ def generate(rng, focus, tier="quick"):
         very_long = True
         d0 = cal.epoch_day(rng.choice([1690, 1700, 1750]), 1, rng.randrange(1, 28))
         length = rng.choice([106752, 107000, 110000])
-    if "C13" not in focus and rng.random() < 0.03 and not very_long:
-        # C12 only (the schedules need pandas' nanosecond range, which ends in 2262): the last days any date type can hold: ranges ending on, or just before, 9999-12-31
+    if rng.random() < 0.03 and not very_long:
+        # the last days any date type can hold: ranges ending on, or just before, 9999-12-31
         last_day = cal.epoch_day(9999, 12, 31)
         length = rng.choice([0, 1, 2, 3, 5, 8, 20])
         d0 = last_day - length - rng.choice([0, 0, 0, 1, 2])
@@ -55,6 +55,8 @@ def generate(rng, focus, tier="quick"):
         while cal.day_weekday(d0) != 5:
             d0 += 1
         length = rng.choice([0, 1])
+    if d0 + length > cal.epoch_day(9999, 12, 31):
+        d0 = cal.epoch_day(9999, 12, 31) - length - 7 + (d0 % 7)      # stay inside the date range, same weekday
     stod = rng.choice(TODS)
     etod = rng.choice([t for t in TODS if t >= stod])
     start = d0 * DAY + stod
@@ -179,6 +181,8 @@ def _run(plan, ctx):
             except ValueError:
                 ctx.ok("C12")
             except Exception as e:
+                if not raised_in_repo(e):
+                    raise          # a bug of the harness: exit 2, never a verdict
                 ctx.violate("C12", "end_before_start_wrong_error", {"exc": repr(e)[:200]})
         ctx.event("clock", "end_before_start")
         return
@@ -186,6 +190,8 @@ def _run(plan, ctx):
         eng = DailyBusinessDaySimulationEngine(S, E, pre_market=plan["pre"], post_market=plan["post"])
         events = [(ev.ts, ev.event_type) for ev in eng]
     except Exception as e:
+        if not raised_in_repo(e):
+            raise          # a bug of the harness: exit 2, never a verdict
         ctx.violate("C12", "clock_raised_on_valid_range", {"start": iso(start), "end": iso(end), "exc": repr(e)[:300]})
         ctx.violate("C13", "clock_raised_on_valid_range", {"start": iso(start), "end": iso(end), "exc": repr(e)[:300]})
         return
@@ -206,8 +212,25 @@ def _run(plan, ctx):
                 break
         again = [(ev.ts, ev.event_type) for ev in eng]
     except Exception as e:
+        if not raised_in_repo(e):
+            raise          # a bug of the harness: exit 2, never a verdict
         ctx.violate("C12", "clock_raised_on_second_iteration", {"exc": repr(e)[:300]})
         return
+    # events that were kept (a list of the whole clock) still say what they said when they were handed out
+    if ctx.judging("C12"):
+        try:
+            kept = list(eng)
+            kept_view = [(ev.ts, ev.event_type) for ev in kept]
+        except Exception as e:
+            if not raised_in_repo(e):
+                raise          # a bug of the harness: exit 2, never a verdict
+            ctx.violate("C12", "clock_raised_on_second_iteration", {"exc": repr(e)[:300]})
+            return
+        ctx.check("C12", kept_view == events, "events_changed_after_they_were_handed_out",
+                  lambda: {"start": iso(start), "end": iso(end), "n": len(events),
+                           "kept_first": [(str(t), k_) for t, k_ in kept_view[:3]],
+                           "streamed_first": [(str(t), k_) for t, k_ in events[:3]]},
+                  sig="events_changed_after_they_were_handed_out")
     # a copy of the clock (copy / deepcopy / pickle round trip - a session shipped to another process) is the same clock
     if ctx.judging("C12"):
         import copy as _copy
@@ -218,6 +241,8 @@ def _run(plan, ctx):
                     (_copy.deepcopy(eng) if how == "deepcopy" else _pickle.loads(_pickle.dumps(eng))))
             twin_events = [(ev.ts, ev.event_type) for ev in twin]
         except Exception as e:
+            if not raised_in_repo(e):
+                raise          # a bug of the harness: exit 2, never a verdict
             ctx.violate("C12", "clock_copy_raised", {"how": how, "exc": repr(e)[:300]})
             return
         ctx.check("C12", twin_events == events, "copied_clock_differs_from_the_original",
@@ -253,6 +278,8 @@ def _run(plan, ctx):
         except StopRun:
             raise
         except Exception as e:
+            if not raised_in_repo(e):
+                raise          # a bug of the harness: exit 2, never a verdict
             ctx.violate("C12", "clock_raised_when_iterators_interleave", {"exc": repr(e)[:300]})
             return
     if ctx.judging("C12"):
@@ -304,6 +331,8 @@ def _run(plan, ctx):
         except ValueError:
             ctx.ok("C13")
         except Exception as e:
+            if not raised_in_repo(e):
+                raise          # a bug of the harness: exit 2, never a verdict
             ctx.violate("C13", "unknown_weekday_wrong_error", {"weekday": plan["wd"], "exc": repr(e)[:200]})
         return
     if plan["wd"] != plan["wd"].upper():
@@ -318,8 +347,10 @@ def _run(plan, ctx):
             raw = list(build().rebalances)
             reb = [epoch(t) for t in raw]
             tz_ok = all(str(t.tz) == "UTC" for t in raw)
-            sharp = all(t.value % 1000000000 == 0 for t in raw)
+            sharp = all(t.nanosecond == 0 and t.microsecond == 0 for t in raw)
         except Exception as e:
+            if not raised_in_repo(e):
+                raise          # a bug of the harness: exit 2, never a verdict
             ctx.violate("C13", "schedule_raised_on_valid_range",
                         {"kind": kind, "start": iso(start), "end": iso(end), "exc": repr(e)[:300]},
                         sig="schedule_raised_on_valid_range:" + kind)
@@ -365,6 +396,8 @@ def _run(plan, ctx):
         bh = BuyAndHoldRebalance(S).rebalances
         got_bh = [epoch(t) for t in bh]
     except Exception as e:
+        if not raised_in_repo(e):
+            raise          # a bug of the harness: exit 2, never a verdict
         ctx.violate("C13", "buy_and_hold_raised", {"start": iso(start), "exc": repr(e)[:200]})
         return
     ref_bh = cal.schedule("buy_and_hold", start, None)
